@@ -64,6 +64,7 @@ def run_shards(argv_fn, total, nworkers=None, env=None, first_index=0, hang_s=12
                 et = threading.Thread(target=lambda: errbuf.append(proc.stderr.read()), daemon=True)
                 et.start()
                 inflight = None
+                phase = None
                 reported = set()
                 q = queue.Queue()
                 rt = threading.Thread(target=_reader, args=(proc, q, 0), daemon=True)
@@ -87,6 +88,7 @@ def run_shards(argv_fn, total, nworkers=None, env=None, first_index=0, hang_s=12
                         continue
                     if "begin" in rec:
                         inflight = rec["begin"]
+                        phase = rec.get("phase")
                         continue
                     if "run" in rec:
                         reported.add(rec["run"])
@@ -101,7 +103,7 @@ def run_shards(argv_fn, total, nworkers=None, env=None, first_index=0, hang_s=12
                     with lock:
                         stats["hangs"] += 1
                 if inflight is not None and inflight not in reported:
-                    rec = {"run": inflight, "verdict": "died", "exit": rc, "hung": hung, "stderr": err[-6000:]}
+                    rec = {"run": inflight, "verdict": "died", "exit": rc, "hung": hung, "stderr": err[-6000:], "phase": phase}
                     with lock:
                         stats["deaths"] += 1
                         stats["records"] += 1
@@ -154,10 +156,12 @@ def run_one(argv, env=None, timeout=120):
 _FRAME = re.compile(r"#\d+ 0x[0-9a-f]+ in (.+?) (/[^\s:]+)(?::(\d+))?")
 
 
-def classify_sanitizer(stderr, repo_prefix="/repo/"):
+def classify_sanitizer(stderr, repo_prefix=None):
     """Returns dict(kind, first_repo_function, alloc_repo_function, summary) or None."""
     if not stderr:
         return None
+    if repo_prefix is None:
+        repo_prefix = os.environ.get("VERIF_REPO", "/repo").rstrip("/") + "/"
     kind = None
     m = re.search(r"ERROR: AddressSanitizer: ([\w-]+)", stderr)
     if m:
